@@ -431,6 +431,8 @@ def c14(tier):
                 else:
                     ops.append({"op": "RawCopy", "arch": 1, "idx": g.r.randint(0, len(fv["entries"]) - 1),
                                 "rename": None if g.r.random() < 0.5 else g.name()})
+                if g.r.random() < 0.4:      # the source archive's reader returns short reads
+                    ops[-1]["src_under"] = g.r.choice([{"max": 1}, {"max": 3}, {"max": 7}, {"max": 100}, {"max": 4000}, {"list": [1, 5, 2]}, {"list": [8191, 1]}])
                 ncopy += 1
             elif c < 0.85:
                 ops.append(dict(g.opts(enc_ok=True), op="StartFile", name=g.name()))
